@@ -41,7 +41,7 @@ def run(ctx):
             "sess:drop-after-k", "sess:drop-mid-message", "sess:reconnected", "sess:stable", "sess:closed", "sess:messages",
             "sess:close-in-backoff-refusals", "sess:set-right-after-drop", "sess:cap-flip-on-off", "sess:cap-flip-off-on",
             "sess:capflip-ebgp-updates-after-flip", "sess:ebgp-updates-with-connection-width",
-            "sess:hold=0", "sess:hold=nil", "sess:keepalive-schedule-keepalives", "sess:failed-attempt-after-a-success", "step:backoff", "step:readerdrop", "step:keepalive", "sess:close-in-handshake", "sess:set-during-write", "sess:set-during-write-messages", "step:abort", "step:abort-with-pending", "step:Set", "step:Set(invalid)", "step:Close"]
+            "sess:hold=0", "sess:hold=nil", "sess:mass-withdraw", "sess:source-address-16-byte-form", "sess:source-address-4-byte-form", "sess:router-id-derived", "sess:keepalive-schedule-keepalives", "sess:failed-attempt-after-a-success", "step:backoff", "step:readerdrop", "step:keepalive", "sess:close-in-handshake", "sess:set-during-write", "sess:set-during-write-messages", "step:abort", "step:abort-with-pending", "step:Set", "step:Set(invalid)", "step:Close"]
     if not thorough:
         need = [k for k in need if k not in ("sess:closed",)] + []
     # white-box comparisons are skipped (not failed) when the session's unexported
@@ -54,8 +54,10 @@ def run(ctx):
             need = [k for k in need if not k.startswith("sess:set-during-write")]
         ctx.cov["whitebox_skipped"] = skipped
         ctx.assumptions.append("white-box step comparisons skipped on this tree (session fields not in the known representation): %s" % sorted(skipped))
-    if cases and any(stats.get(k, 0) == 0 for k in need):
-        raise Exception("generator degenerate: %r" % stats)
+    # a counter that is zero BECAUSE the implementation misbehaves must not mask the finding:
+    # the generator is judged only when nothing else was found
+    if cases and any(stats.get(k, 0) == 0 for k in need) and not ctx.violations and not ctx.corr_broken and not mism:
+        raise Exception("generator degenerate: %r" % sorted(k for k in need if stats.get(k, 0) == 0))
 
     def search():
         for k in range(3):
@@ -86,6 +88,8 @@ def run(ctx):
                "the peer's 4-octet-AS capability is drawn anew for every connection (on->off and off->on flips inside one session); "
                "then either Close or leave the connection alone and wait for convergence; plus fixed schedules: MyASN=65536 vs 2-octet peer, Close during backoff, "
                "capability flip on->off / off->on x eBGP / iBGP, configured hold time 0 / nil (every schedule draws the hold time from {nil,0,3,30,90,7,4.5,65535 s} and the peer checks the session's OPEN field by field), "
+               "optional session parameters as the configuration layer produces them (SourceAddress 127.0.0.1 in 16- and 4-byte form, unset RouterID, CurrentNode, ignored knobs), "
+               "mass withdraw (Set of 900-1300 host routes, then a handful: one change withdrawing > 814 /32 routes), "
                "Close() landing inside a connection attempt (peer delays its OPEN: after accept, after the peer's OPEN, during the reconnect after a flap), "
                "hold time 3 s with 2.3 s idle (keepalive cadence), timed events (TAt) for the backoff / keepalive lower bounds, "
                "Set() calls inside the sender's write window (real sendUpdates/Set on a net.Pipe connection whose peer stops reading mid-flush); "
